@@ -94,10 +94,20 @@ func ResolveRelativeSource(a, b Source) (Source, error) {
 	case LocalSource:
 		aRaw := a.relPath
 		new := path.Join(aRaw, bRaw)
-		if !looksLikeLocalSource(new) {
+		// Spell the result the one way ParseLocalSource accepts, and let it
+		// be the judge of that: "." and ".." take a trailing slash, anything
+		// else that lost its prefix gets "./" back.
+		switch {
+		case new == "." || new == "..":
+			new += "/"
+		case !looksLikeLocalSource(new):
 			new = "./" + new // preserve LocalSource's prefix invariant
 		}
-		return LocalSource{relPath: new}, nil
+		ret, err := ParseLocalSource(new)
+		if err != nil {
+			return nil, err
+		}
+		return ret, nil
 	case RegistrySource:
 		aSub := a.subPath
 		newSub, err := joinSubPath(aSub, bRaw)
